@@ -57,9 +57,13 @@ SGX_TARGETS = ["quote", "quote-sig", "att-key", "qe-report", "qe-sig", "auth-dat
                "signer-message", "pubkey", "root"]
 REQUIRED_LABELS = {t: ["plat:ledger", "plat:sgx", "unaltered:ok", "altered:refused", "legacy",
                        "refresh",
-                       "pages>=2"] + ["alter:" + x for x in LEDGER_TARGETS + SGX_TARGETS]
+                       "pages>=2", "ud-form:0x", "ud-form:plain", "ud-leading-zero"] + ["alter:" + x for x in LEDGER_TARGETS + SGX_TARGETS]
                    for t in ("quick", "thorough")}
 h32 = st.binary(min_size=32, max_size=32)
+# 32-byte values, with those that start with zero digits / bytes well represented
+ud32 = st.one_of(h32, h32, st.binary(min_size=31, max_size=31).map(lambda b: b"\x00" + b),
+                 st.binary(min_size=32, max_size=32).map(lambda b: bytes([b[0] & 0x0f]) + b[1:]),
+                 st.binary(min_size=28, max_size=28).map(lambda b: bytes(4) + b))
 PINCH = "abcdefghijkmnpqrstuvwxyzABCDEFGHJKLMNPQRSTUVWXYZ23456789"
 
 
@@ -72,7 +76,9 @@ def cases(draw, tier):
          "ui_hash": draw(h32), "signer_hash": draw(h32),
          "iteration": draw(st.one_of(st.sampled_from([0, 1, 65535]), st.integers(0, 65535))),
          "best": draw(h32), "tx": draw(st.binary(min_size=8, max_size=8)),
-         "ts": draw(st.integers(0, 2 ** 64 - 1)), "ud": draw(h32),
+         "ts": draw(st.integers(0, 2 ** 64 - 1)), "ud": draw(ud32),
+         # the user-defined value may be given with or without the 0x prefix
+         "ud_form": draw(st.sampled_from(["plain", "0x", "0x"])),
          "legacy": draw(st.integers(0, 3)) == 0 if plat == "ledger" else False,
          "version": "5." + str(draw(st.integers(0, 9))),
          "ui_version": draw(st.sampled_from(["5.4", "5.3", "2.1"])),
@@ -86,7 +92,7 @@ def cases(draw, tier):
          "refresh": None}
     if plat == "ledger" and draw(st.integers(0, 2)) == 0:
         # a second attestation run that starts from the file the first one wrote
-        c["refresh"] = {"ud": draw(h32), "best": draw(h32),
+        c["refresh"] = {"ud": draw(ud32), "best": draw(h32),
                         "tx": draw(st.binary(min_size=8, max_size=8)),
                         "ts": draw(st.integers(0, 2 ** 64 - 1))}
     if plat == "sgx":
@@ -97,6 +103,10 @@ def cases(draw, tier):
                       "bit": draw(st.integers(0, 7)),
                       "path": draw(st.sampled_from(ALL_PATHS))}
     return c
+
+
+def ud_arg(c, ud):
+    return ("0x" if c.get("ud_form") == "0x" else "") + ud.hex()
 
 
 _TMP = {}
@@ -152,7 +162,8 @@ def reload_equal(path, what):
 def run_case(c):
     plat = c["platform"]
     alter = c["alter"]
-    labels = ["plat:" + plat]
+    labels = ["plat:" + plat, "ud-form:" + c.get("ud_form", "plain")] + \
+        (["ud-leading-zero"] if c["ud"][0] < 16 else [])
     spec = dict(c)
     if alter:
         a = dict(alter)
@@ -177,7 +188,7 @@ def run_case(c):
     failures = []
     try:
         base = dict(verbose=False, pin=c["pin"], any_pin=False, no_exec=False, no_unlock=False,
-                    attestation_ud_source=c["ud"].hex(), new_pin=None)
+                    attestation_ud_source=ud_arg(c, c["ud"]), new_pin=None)
         if plat == "ledger":
             # 1. onboarding + attestation key set-up
             real_urandom = os.urandom
@@ -228,7 +239,7 @@ def run_case(c):
                     att_file2 = os.path.join(d, "attestation2.json")
                     opts = types.SimpleNamespace(
                         output_file_path=att_file2, attestation_certificate_file_path=att_file,
-                        **dict(base, attestation_ud_source=r["ud"].hex()))
+                        **dict(base, attestation_ud_source=ud_arg(c, r["ud"])))
                     e, out = call(latt.do_attestation, opts)
                     if e is not None:
                         failures.append(("attestation-refresh", e))
